@@ -355,6 +355,7 @@ func checkC14(w *World, r *Report) {
 	checkConstantScanBounds(w, r, reach)
 	checkSizeDecidedResults(w, r, reach)
 	checkChainWalkBounds(w, r, "R14.7")
+	checkParseAlwaysParses(w, r, "R14.8")
 }
 
 // checkNoAliasedHeaders (R14.3 / R01.7): no string or slice header is manufactured over memory
@@ -841,4 +842,63 @@ func checkChainWalkBounds(w *World, r *Report, rule string) {
 	}
 	r.Counts["walks along a chain of links"] = n
 	_ = bad
+}
+
+// checkParseAlwaysParses — R14.8: every template goes through the one parser.  In Parser.Parse no
+// return that can carry a nil error is reachable without a call of parseOuterTemplate (directly
+// or in a helper that calls it): a shortcut for sources that "have nothing to evaluate" decides
+// by a scan of the text which grammar applies — comments, escapes and whitespace control in such
+// a source are then not seen by anybody.
+func checkParseAlwaysParses(w *World, r *Report, rule string) {
+	parse := w.ssaFunc(w.method("Parser", "Parse"))
+	outer := w.ssaFunc(w.method("Parser", "parseOuterTemplate"))
+	calls := map[*ssa.Function]bool{outer: true}
+	for changed := true; changed; {
+		changed = false
+		for _, g := range w.pkgFuncs() {
+			if calls[g] || g == parse {
+				continue
+			}
+			instrsOf(g, func(in ssa.Instruction) {
+				if c, ok := in.(ssa.CallInstruction); ok {
+					if h := c.Common().StaticCallee(); h != nil && calls[h] && !calls[g] {
+						calls[g] = true
+						changed = true
+					}
+				}
+			})
+		}
+	}
+	gen := func(in ssa.Instruction) bool {
+		c, ok := in.(ssa.CallInstruction)
+		if !ok {
+			return false
+		}
+		h := c.Common().StaticCallee()
+		return h != nil && calls[h]
+	}
+	ei := errResultIndex(parse.Signature)
+	n := 0
+	bad := ""
+	instrsOf(parse, func(in ssa.Instruction) {
+		ret, ok := in.(*ssa.Return)
+		if !ok || bad != "" {
+			return
+		}
+		res := retResults(ret)
+		if ei >= 0 && ei < len(res) && errorSurelyNonNil(res[ei], ret.Block()) {
+			return
+		}
+		n++
+		if found, path := existsPathAvoiding(parse, in, gen, nil); found {
+			bad = w.posOf(ret.Pos()) + " (path " + strings.Join(path, " → ") + ")"
+		}
+	})
+	construct := "every successful return of Parse lies behind parseOuterTemplate"
+	if bad == "" {
+		r.ok(rule, ssaName(parse), construct, w.posOf(parse.Pos()), fmt.Sprintf("%d return(s) that can succeed, each behind the parser", n), true)
+	} else {
+		r.bad(rule, ssaName(parse), construct, w.posOf(parse.Pos()), "Parse can succeed at "+bad+" without having run the parser: what a scan of the source text decides there (no tags, short, only text) selects a second, simpler grammar in which comments are printed, escapes kept and dashes ignored")
+	}
+	r.floor("returns of Parse that can succeed", n, 1)
 }
